@@ -15,7 +15,7 @@ CHECK = dict(
         dict(name="forward", dir=D + "forward", src="C17/forward", runs=[
             dict(name="history", run="^TestVerifC17History$", quick=40000, thorough=2000000, shards_quick=2, shards_thorough=8),
             dict(name="accept", run="^TestVerifC17Accept$", quick=5000, thorough=200000, shards_quick=1, shards_thorough=2),
-            dict(name="sockets", run="^TestVerifC17Sockets$", quick=2000, thorough=80000, shards_quick=2, shards_thorough=2),
+            dict(name="sockets", run="^TestVerifC17Sockets$", quick=2000, thorough=80000, shards_quick=2, shards_thorough=4),
         ]),
     ],
 )
